@@ -1,6 +1,7 @@
 package accessory
 
 import (
+	"bytes"
 	"crypto/md5"
 	"encoding/json"
 	"fmt"
@@ -91,8 +92,11 @@ func (m *Container) ContentHash() []byte {
 		log.Info.Panic(err)
 	}
 
+	// Numbers are kept as they are written; float64 cannot distinguish integers above 2^53
 	val := map[string]interface{}{}
-	if err := json.Unmarshal(b, &val); err != nil {
+	dec := json.NewDecoder(bytes.NewReader(b))
+	dec.UseNumber()
+	if err := dec.Decode(&val); err != nil {
 		log.Info.Panic(err)
 	}
 
